@@ -321,13 +321,16 @@ F52_SIG = "c18_attrs_has_cache_on_generic_alias_flips_baseconverter"
 
 @framework.finding(F52_SIG)
 def _f52(case):
-    """F52: `Converter.gen_(un)structure_attrs_fromdict` calls `attrs.has(G[int])`, which stores `__attrs_attrs__` ON THE
-    (process-wide, cached) typing alias object `G[int]`; from then on `cattrs._compat.has(G[int])` is true and every
-    BaseConverter -- existing or fresh -- routes `G[int]` to its plain attrs hooks (which know nothing about type
-    parameters) instead of `_gen_structure_generic`.  Recognised by the shape of the input only: a parametrised generic
-    ATTRS class, operated on by a Converter, observed on a BaseConverter."""
+    """F52: `register_structure_hook(G[int], f)` / `register_unstructure_hook(G[int], f)` (either converter class) call
+    `attrs.has(G[int])`, which stores `__attrs_attrs__` ON THE (process-wide, cached) typing alias object `G[int]` --
+    and then raise TypeError from `resolve_types(G[int])`.  From then on `cattrs._compat.has(G[int])` is true and every
+    BaseConverter that has not yet cached a hook for it routes `G[int]` to its plain attrs hooks (which know nothing
+    about type parameters) instead of `_gen_structure_generic`.  (Until /repo 055f296 the same was triggered by any
+    Converter merely structuring / unstructuring `G[int]`: `gen_*_attrs_fromdict` called `attrs.has(cl)`.)
+    Recognised by the shape of the input only: a parametrised generic ATTRS class, a class-based registration for it on
+    one instance, observed on a BaseConverter."""
     return (case.get("op") == "cross-instance" and case.get("kind") == "generic-attrs"
-            and case.get("operated") == "Converter" and case.get("observer") == "BaseConverter")
+            and str(case.get("xop", "")).startswith("register_") and case.get("observer") == "BaseConverter")
 
 
 def cross_instance_probe():
@@ -342,7 +345,7 @@ def cross_instance_probe():
     for kind in ("generic-attrs", "generic-dataclass"):
         for xk in mk:
             for yk in mk:
-                for xop in ("structure", "unstructure"):
+                for xop in ("structure", "unstructure", "register_structure_hook", "register_unstructure_hook"):
                     # a fresh class per combination: whatever state there is sticks to the class / alias objects
                     if kind == "generic-attrs":
                         @attrs.define
@@ -367,8 +370,15 @@ def cross_instance_probe():
                     before = observe(y)
                     x = mk[xk]()
                     try:
-                        x.structure({"v": "2"}, tgt) if xop == "structure" else x.unstructure(GBox(2), unstructure_as=tgt)
-                    except Exception:  # noqa: BLE001
+                        if xop == "structure":
+                            x.structure({"v": "2"}, tgt)
+                        elif xop == "unstructure":
+                            x.unstructure(GBox(2), unstructure_as=tgt)
+                        elif xop == "register_structure_hook":
+                            x.register_structure_hook(tgt, lambda v, _: GBox(0))
+                        else:
+                            x.register_unstructure_hook(tgt, lambda v: {"v": 0})
+                    except Exception:  # noqa: BLE001  (the class-based registration of `G[int]` itself raises TypeError)
                         pass
                     after_same, after_fresh = observe(y), observe(mk[yk]())
                     if before != after_same or before != after_fresh:
@@ -411,8 +421,8 @@ def run(chk: framework.Check):
     rng = chk.rng
     if os.environ.get("VERIF_C18_F52") and not any(f.get("signature") == F52_SIG for f in chk.known):
         chk.known.append({"id": "F52", "property": "C18", "kind": "finding", "signature": F52_SIG,
-                          "what": "a Converter operating on G[int] (generic attrs class) makes every BaseConverter refuse G[int] "
-                                  "(entry assumed via VERIF_C18_F52)"})
+                          "what": "a class-based hook registration for G[int] (generic attrs class) on one converter makes other "
+                                  "BaseConverters refuse G[int] (entry assumed via VERIF_C18_F52)"})
     drv = lean.Driver()
     stats = {"probes": 0, "copies": 0, "oracle_fail": 0}
     corr_fail = []
